@@ -559,6 +559,12 @@ def run(rep):
     pools = [list(p) for p in CORPUS_POOLS]
     for _ in range(npools):
         pools.append(pool(rng, rng.choice([6, 7, 8])))
+    # directed pool: the two zeros at every depth and position (equal as numbers, hence everywhere they occur)
+    Z, NZ, ONE, TWO = ("n", 0), ("n", "-0"), ("n", 1), ("n", 2)
+    A = lambda *xs: ("a", tuple(xs))
+    pools.append([A(ONE, NZ, TWO), A(ONE, Z, TWO), A(ONE, Z, ("n", 3)), A(NZ), A(Z), A(("s", (0x61,)), NZ), A(("s", (0x61,)), Z),
+                  A(A(ONE, NZ)), A(A(ONE, Z)), A(ONE, A(TWO, NZ), ONE), A(ONE, A(TWO, Z), ONE)])
+    directed_pool = len(pools) - 1
     # implementation-only pools with fractional numbers
     dpools = []
     for _ in range(6 if quick else 150):
@@ -657,7 +663,8 @@ def run(rep):
     # operands bound to variables and fully evaluated before the comparison: same nine answers
     idx = [k for k, mt in enumerate(meta) if mt[0] == "pool" and pure(mt[-2]) and pure(mt[-1])]
     rng.shuffle(idx)
-    idx = idx[: (400 if quick else 8000)]
+    must = [k for k in idx if meta[k][1] == directed_pool]
+    idx = must + [k for k in idx if meta[k][1] != directed_pool][: (400 if quick else 8000)]
     fio = vlib.impl([lines[k].replace("cmp all ", "cmp forced ", 1) for k in idx])
     for k, f_out in zip(idx, fio):
         rep.bump("forced-operand comparisons")
